@@ -261,11 +261,22 @@ def decide(ctx, I, rule, label, cname, path, mkargs, gargs, negative, want, conc
     try:
         out = I.run(path, mkargs(), gargs)
         outs = [out]
-        if out.kind == 'undecided':
-            outs, complete = I.explore(path, mkargs, gargs, max_paths=12)
-            outs = [o for o in outs if o.kind != 'infeasible']
-            if not complete or any(o.kind == 'undecided' for o in outs) or not outs:
-                outs = None
+        first = None
+        if out.kind != 'undecided':
+            n_inc = len(ctx.undecided.get('rounding_inconsistent', []))
+            first = compare(ctx, rule, label, cname, out, negative, want, path, stats, concrete)
+            if first == 'proved':
+                stats['proved'] += 1
+                return
+            if first == 'finding':
+                stats['refuted'] += 1
+                return
+            del ctx.undecided.get('rounding_inconsistent', [])[n_inc:]
+        # an undecided branch (here or inside a callee, whose result is then unknown): enumerate the paths
+        outs, complete = I.explore(path, mkargs, gargs, max_paths=12)
+        outs = [o for o in outs if o.kind != 'infeasible']
+        if not complete or any(o.kind == 'undecided' for o in outs) or not outs:
+            outs = None
     except Exception as ex:
         stats['unsupported'] += 1
         ctx.undecided.setdefault('rounding_unsupported', []).append('%s %s: %s' % (label, cname, str(ex)[:80]))
